@@ -60,6 +60,16 @@ Theorem C03_exact_at_quiescence : forall np s0 ts0 sched, good_init s0 ts0 ->
 Proof. exact exact_at_quiescence. Qed.
 Print Assumptions C03_exact_at_quiescence.
 
+(* Once a counter file is open and all calls have returned, nothing remains
+   unpersisted (extra = 0), and a valid pointer refers to the current mapping:
+   after a rotation increments land only in the new file. *)
+Theorem C03_nothing_unpersisted : forall np s0 ts0 sched, good_init s0 ts0 ->
+  let '(s, ts) := run np sched (s0, ts0) in
+  all_done ts = true -> s_cur s <> None ->
+  w_extra (s_word s) = 0 /\ (w_have (s_word s) = true -> s_ptr s = s_cur s).
+Proof. exact nothing_unpersisted. Qed.
+Print Assumptions C03_nothing_unpersisted.
+
 (* No call dereferences a nil counter pointer (the `Crash` program point of
    Counter.add is unreachable). *)
 Theorem C03_no_nil_deref : forall np s0 ts0 sched, good_init s0 ts0 ->
@@ -91,7 +101,9 @@ Proof.
   { unfold wf. cbn. repeat split; try (intros g H; injection H as <-; auto);
       repeat constructor; vm_compute; try discriminate; reflexivity. }
   split; [constructor; [left; split; vm_compute; [reflexivity|discriminate] | constructor; [right; split; reflexivity | constructor]]|].
-  split; vm_compute; reflexivity.
+  split; [vm_compute; reflexivity|]. split; [vm_compute; reflexivity|].
+  unfold init_clean. cbn [s_ptr s_cur s_word]. split; [intros _; reflexivity|]. split; [intros _ _; vm_compute; reflexivity|].
+  vm_compute. intros H; discriminate H.
 Qed.
 Print Assumptions C03_no_fault_refuted.
 
